@@ -407,6 +407,29 @@ def auth(rng, sid, nscen):
     return out
 
 
+def sizes(rng, sid):
+    """PUBLISH packets whose Remaining Length sits on and next to the boundaries of its variable-length encoding (127/128,
+    16383/16384): byte counters must equal the bytes on the wire, received and sent, for both protocol versions"""
+    out = []
+    for pv in (4, 5):
+        w = World(rng)
+        w.add_client("s4", 4, persistent=False)
+        w.add_client("s5", 5, persistent=False)
+        w.add_client("p", pv, persistent=False)
+        k4, k5, kp = w.connect("s4"), w.connect("s5"), w.connect("p")
+        w.steps += [sub(k4, [{"n": "z", "qos": 1}]), sub(k5, [{"n": "z", "qos": 1}])]
+        for rem in (126, 127, 128, 129, 16382, 16383, 16384, 16385):
+            q = rng.randrange(2)
+            plen = rem - (2 + 1 + (2 if q else 0) + (1 if pv == 5 else 0))
+            w.steps.append(pub(kp, "z", q, w.tag(), pad=plen))
+        w.snap()
+        for c in ("s4", "s5", "p"):
+            w.end(c, "disconnect")
+        w.steps += [{"op": "sleep", "ms": SETTLE_MS}, {"op": "stats"}]
+        out.append(_sc("%s-sizes%d" % (sid, pv), {"mode": "overlap", "qq0": True}, w.steps))
+    return out
+
+
 def all_packets(rng, sid):
     """one fixed scenario that exchanges every packet type the broker counts (minimal, used for the samples)"""
     w = World(rng)
